@@ -43,6 +43,26 @@ Definition z_to_u (k : N) (x : Z) : N := Z.to_N (Z.modulo x (Z.pow 2 (Z.of_N k))
 Definition u_to_int (x : N) : Z :=                                        (* int(x) / int64(x) for a 64-bit unsigned x *)
   let z := Z.of_N (wrap 64 x) in if Z.ltb z 9223372036854775808 then z else (z - 18446744073709551616)%Z.
 
+(* int64: two's complement in N.  Arithmetic goes through the signed value and wraps back to 64 bits
+   (Go: + - * wrap; / truncates towards zero, % has the sign of the dividend; MinInt64 / -1 wraps;
+   division by zero panics — not modelled, Coq's Z.quot x 0 = 0). *)
+Definition sint64 (n : N) : Z := u_to_int n.
+Definition of_sint64 (z : Z) : N := Z.to_N (Z.modulo z 18446744073709551616).
+Definition i64_add (a b : N) : N := of_sint64 (sint64 a + sint64 b).
+Definition i64_sub (a b : N) : N := of_sint64 (sint64 a - sint64 b).
+Definition i64_mul (a b : N) : N := of_sint64 (sint64 a * sint64 b).
+Definition i64_quot (a b : N) : N := of_sint64 (Z.quot (sint64 a) (sint64 b)).
+Definition i64_rem (a b : N) : N := of_sint64 (Z.rem (sint64 a) (sint64 b)).
+Definition i64_ltb (a b : N) : bool := Z.ltb (sint64 a) (sint64 b).
+Definition i64_leb (a b : N) : bool := Z.leb (sint64 a) (sint64 b).
+
+(* time.Time values are only ever built by time.Unix(sec, nsec) in the subset: the pair of its arguments
+   (int64 each).  time.Unix documents: the instant sec seconds and nsec nanoseconds after the epoch, for
+   every nsec (also outside [0, 1e9)); [time_ns] is that instant in nanoseconds. *)
+Definition time : Type := (N * N)%type.
+Definition time_Unix (sec nsec : N) : time := (sec, nsec).
+Definition time_ns (t : time) : Z := (sint64 (fst t) * 1000000000 + sint64 (snd t))%Z.
+
 (* ---------------------------------------------------------------- strings *)
 Definition len (s : list N) : Z := Z.of_nat (length s).
 Definition slen {A} (s : list A) : Z := Z.of_nat (length s).
